@@ -9,6 +9,7 @@ import (
 	"math/big"
 	"os"
 	"strconv"
+	"strings"
 )
 
 var model = map[string]string{}
@@ -151,6 +152,17 @@ func Assume(c bool) {
 }
 
 func Assert(id string, c bool) {
+	if f := os.Getenv("VERIF_ASSERTS"); f != "" {
+		on := false
+		for _, p := range strings.Split(f, ",") {
+			if strings.HasPrefix(id, p) {
+				on = true
+			}
+		}
+		if !on {
+			return
+		}
+	}
 	if c {
 		fmt.Printf("VERIF-ASSERT-OK %s\n", id)
 	} else {
@@ -190,3 +202,9 @@ type exitSignal struct{}
 
 // Exit ends the harness run (path) without error.
 func Exit() { panic(exitSignal{}) }
+
+func sprint(v interface{}) string { return fmt.Sprint(v) }
+
+// Monitor reads an engine monitor counter (e.g. "db-write-during-tx"). The native
+// run-time has no monitors and reports 0.
+func Monitor(name string) int { return 0 }
